@@ -22,7 +22,7 @@ VARIABLES tid, l, O, X, cnt
 vars == <<tid, l, O, X, cnt>>
 
 Clauses == {"C13_Reverse", "C13_Stack", "C13_Named", "C13_Delete", "C13_Ctx", "C13_Keep",
-            "C13_Pivot", "C13_Matrix", "C13_Angle"}
+            "C13_Pivot", "C13_Matrix", "C13_Angle", "C13_Scale"}
 FP == INSTANCE FixedPoint
 
 Abs(x) == IF x < 0 THEN -x ELSE x
@@ -85,6 +85,12 @@ AngleOK(e, obs) ==
       w == 6 - uv[1] - uv[2]                                   \* the axis itself stays put
   IN d <= 60 /\ \A k \in 1..3 : Abs(LinCol(obs, w)[k] - (IF k = w THEN 10000 ELSE 0)) <= 2
 
+\* A scaling by ARBITRARY factors (float runs), read off the same way: while the map in force has no linear part yet, the
+\* observed images of the basis vectors are the factors themselves (e.a.sv4, in 1/10000), on the diagonal and nothing else.
+ScaleOK(e, obs) ==
+  \A i \in 1..3 : \A k \in 1..3 : Abs(LinCol(obs, i)[k] - (IF i = k THEN e.a.sv4[i] ELSE 0)) <= 2
+HasFactors(e) == e.a.sv4 # <<0, 0, 0>>
+
 Holds(c, e, M) ==
   LET obs == Qs(e) IN
   CASE c = "C13_Reverse" ->
@@ -109,6 +115,8 @@ Holds(c, e, M) ==
          M.exact => \A i \in DOMAIN e.probes : Close(e.probes[i].q, ApplyM(NextX(e).cur.m, e.probes[i].p), 0)
     [] c = "C13_Angle" ->
          (e.call = "rotate" /\ e.out = "ok" /\ IdLin(O.obs)) => AngleOK(e, obs)
+    [] c = "C13_Scale" ->
+         (e.call = "scale" /\ e.out = "ok" /\ HasFactors(e) /\ IdLin(O.obs)) => ScaleOK(e, obs)
 
 Ante(c, e, M) ==
   CASE c = "C13_Stack" -> e.call = "restore"
@@ -119,6 +127,7 @@ Ante(c, e, M) ==
     [] c = "C13_Pivot" -> e.call \in PivotedCalls /\ e.out = "ok" /\ e.pv.has
     [] c = "C13_Matrix" -> M.exact /\ e.call \in ChainCalls
     [] c = "C13_Angle" -> e.call = "rotate" /\ e.out = "ok" /\ IdLin(O.obs)
+    [] c = "C13_Scale" -> e.call = "scale" /\ e.out = "ok" /\ HasFactors(e) /\ IdLin(O.obs)
     [] OTHER -> TRUE
 
 Init ==
